@@ -907,7 +907,7 @@ func (x *Exec) havocConst(prefix, sort string) Term {
 
 func (x *Exec) havocHeapAll(st *State) {
 	for _, c := range x.compOrder {
-		if strings.HasPrefix(c, "G_const_") || c == "Ghost_lastrand" {
+		if strings.HasPrefix(c, "G_const_") || c == "Ghost_lastrand" || strings.HasPrefix(c, "Ghost_calls_") {
 			continue
 		}
 		st.heap[c] = x.havocConst(c, x.comps[c])
